@@ -495,10 +495,29 @@ pub fn double_fallback_zone() -> BoxedStrategy<Zone> {
         .boxed()
 }
 
+/// a repeated stretch and a skipped stretch so close together that a skipped time, moved back (or forward) by the
+/// length of the gap, lands on a repeated time: "earlier" must then take the first, "compatible"/"later" the last
+/// of the two candidates of the moved reading. Shapes: overlap shortly before the gap, or shortly after it.
+pub fn gap_near_overlap_zone() -> BoxedStrategy<Zone> {
+    (-36_000i64..=36_000, proptest::sample::select(vec![1800i64, 3600, 7200]), proptest::sample::select(vec![1800i64, 3600, 5400]), 1i64..=59, -4_000_000_000i64..=4_000_000_000, prop::bool::ANY)
+        .prop_map(|(o, s1, g, frac, t0, overlap_first)| {
+            let o = o / 900 * 900;
+            // distance between the two transitions: less than overlap + gap
+            let d = ((s1 + g) * frac / 60).max(60);
+            if overlap_first {
+                Zone { name: "Test/OverlapThenGap".into(), initial: o, trans: vec![(t0, o - s1), (t0 + d, o - s1 + g)] }
+            } else {
+                Zone { name: "Test/GapThenOverlap".into(), initial: o, trans: vec![(t0, o + g), (t0 + d, o + g - s1)] }
+            }
+        })
+        .boxed()
+}
+
 fn zone_kind() -> BoxedStrategy<ZoneKind> {
     let shaped = shaped_zones();
     prop_oneof![
         1 => double_fallback_zone().prop_map(ZoneKind::Table),
+        1 => gap_near_overlap_zone().prop_map(ZoneKind::Table),
         2 => (-1439i32..=1439).prop_map(ZoneKind::Fixed),
         1 => proptest::sample::select(vec![0i32, 60, -60, 330, 345, -210, 840, -720, 1439, -1439]).prop_map(ZoneKind::Fixed),
         6 => syn_zone().prop_map(ZoneKind::Table),
@@ -618,7 +637,7 @@ pub fn run(ctx: &mut Ctx) {
     ctx.rule = "zones: every kind of fixed offset (TimeZone::UtcOffset), synthetic rule tables (1-12 transitions >= 3 days apart anywhere in +-1e11 s, offsets within +-15 h incl. non-zero seconds, shifts from 1 minute to 26 h in both directions) and hand-written tables shaped like New York / Lord Howe / Apia (24 h skip) / Dublin (negative DST) / Kolkata (LMT seconds) / Kiritimati, served through the harness TimeZoneProvider; plus windows (anchor transition +-3 neighbours) of every real IANA zone's listed TZif transitions (harness reader), half of them served by the harness provider, half resolved end to end by the crate's bundled provider. points: within +-2 days of a transition (at the edges +-1 ns, inside gaps and overlaps) or uniform. routes: ZonedDateTime getters of an instant; PlainDateTime/PlainDate.toZonedDateTime; from_str and from_partial with an explicit offset (correct, rounded to the minute, the other candidate's, wrong, or - strings only - with a fractional second, both signs) or Z x 4 disambiguations x 4 offset options. oracle: brute force over the rule table + Temporal's disambiguation/offset rules. non-trivial = wall time inside a gap or overlap, explicit offset or Z present, shift > 3 h, offset with non-zero minutes/seconds.".into();
     ctx.assumptions = vec![
         "provider contract: candidates ascending; transition_epoch = second at which the offset in force began (tzp.rs)".into(),
-        "rule sets whose gaps interact with another transition (transitions closer than 3 days) are excluded by construction; the one exception is the double-fallback class (two backward changes whose repeated stretches intersect: three candidates, no skipped time)".into(),
+        "rule sets whose gaps interact with another transition (transitions closer than 3 days) are excluded by construction; the exceptions are the double-fallback class (two backward changes whose repeated stretches intersect: three candidates, no skipped time) and the gap-near-overlap class (a skipped time moved by the gap length lands on a repeated time); the oracle follows DisambiguatePossibleEpochNanoseconds literally (+-1 day probes)".into(),
     ];
     ctx.run_prop(&Sub, &case, ctx.tier.pick(600_000, 20_000_000));
     // the reading printed by to-string with rounding options is the reading of the *rounded* instant (date-time and
